@@ -165,6 +165,11 @@ CovLap(M, q) == [i \in Sites(M) |-> [k \in Sites(M) |->
                      QAdd(IF k = Other(M, e, i) THEN LinkFrom(M, q, e, i) ELSE Zero,
                           IF k = i THEN QInt(-1) ELSE Zero))])]]
 
+\* the same operator with the rows of the sites in F replaced by rows of the identity (pinned / Dirichlet rows:
+\* property C06 fixes psi there); F = {} is the free operator
+CovLapPinned(M, q, F) == [i \in Sites(M) |-> [k \in Sites(M) |->
+   IF i \in F THEN (IF k = i THEN One ELSE Zero) ELSE CovLap(M, q)[i][k]]]
+
 NoLinks(M) == [e \in 1..NE(M) |-> 0]
 Grad(M) == CovGrad(M, NoLinks(M))
 Lap(M) == CovLap(M, NoLinks(M))
@@ -356,6 +361,10 @@ KernelIsConstants == AtScalar => \A M \in {Inst} : \A L \in {Lap(M)} :
                             /\ ((Small /\ Connected(M)) => KernelDimByMinorsIs(M, L, 1))
 GradExactOnLinear == AtScalar => \A M \in {Inst} : \A G \in {Grad(M)} : GradExactOnLinearOn(M, G)
 CovLapHermitian == AtFull => \A M \in {Inst}, q \in {Q} : \A L \in {CovLap(M, q)} : WeightedHermitianOn(M, L)
+\* pinning touches exactly the pinned rows; pinning nothing is the free (Hermitian) operator
+PinnedRowsOnly == AtFull => \A M \in {Inst}, q \in {Q} : \A L \in {CovLap(M, q)} :
+                     \A F \in {{}, {1}, {1, M.n}, {2, 3}} : \A P \in {CovLapPinned(M, q, F)} :
+                        \A i, k \in Sites(M) : P[i][k] = (IF i \in F THEN (IF k = i THEN One ELSE Zero) ELSE L[i][k])
 \* sanity of the universe: the unstated variant (kernel = constants without connectedness) must FAIL on D6
 KernelIsConstantsEvenIfDisconnected == (AtScalar /\ Small) => \A M \in {Inst} : \A L \in {Lap(M)} : KernelDimByMinorsIs(M, L, 1)
 \* sanity of the invariants: a Laplacian that uses U_ij (not its conjugate) from both ends is not Hermitian
